@@ -132,6 +132,84 @@ Proof.
   vm_compute. repeat split.
 Qed.
 
+(* ---- a directory after a failed call is still usable.  The independent decoder starts a long-name run at a slot carrying
+   0x40 (Spec/Abs.dir_scan), so an orphan run left by a failed write_entry does not spoil the entry written behind it.
+   C01_write_entry_refines_orphans: in a directory whose only decoder issues are orphan long-name runs (DOrphanLfn; no
+   DAfterEnd), a successful write_entry of a name that has a long-name run (not "." / ".." - or else in an issue-free
+   directory) gains exactly one entry, decoded with its long name, and leaves the issue list EXACTLY as it was; frame as
+   in C03_write_entry_refines (which is the case iss = []).
+   C01_write_after_failed_write_refines: write_entry fails (any reason, any kind of directory), then a later write_entry
+   succeeds: entries and labels are those before the failed call plus the new entry, the issues are those the failed call
+   left (none, or one orphan run), and for a new short name the finite-map view is the map update.
+   C01_create_refines_map_orphans: the same for the whole create step (existence check, alias, write). *)
+Theorem C01_write_entry_refines_orphans : forall k free fat32 ss n e es ls iss p q ss',
+  dir_scan ss 0 [] fat32 = (es, ls, iss) -> orphans_only iss -> (is_dot_name n = false \/ iss = []) ->
+  len_N ss < 134217728 -> sfn_live e ->
+  write_entry k free ss n e = (Ok (p, q), ss') ->
+  exists es1 es2 ne,
+    es = es1 ++ es2 /\ dir_scan ss' 0 [] fat32 = (es1 ++ ne :: es2, ls, iss) /\
+    e_lfn ne = (if is_dot_name n then [] else utf16_encode n) /\ e_lfn_ok ne = true /\
+    e_sfn ne = se_name e /\ e_attr ne = se_attrs e /\ e_ntres ne = se_reserved_0 e /\
+    e_ctime_ms ne = se_create_time_0 e /\ e_ctime ne = se_create_time_1 e /\ e_cdate ne = se_create_date e /\
+    e_adate ne = se_access_date e /\ e_mtime ne = se_modify_time e /\ e_mdate ne = se_modify_date e /\
+    e_cluster ne = (if fat32 then se_first_cluster_hi e * 65536 else 0) + se_first_cluster_lo e /\
+    e_size ne = se_size e /\ e_first_slot ne = p /\ e_sfn_slot ne + 1 = q /\
+    q = p + len_N (entry_run n e) /\
+    (forall i, (i < length ss)%nat -> (N.of_nat i < p \/ q <= N.of_nat i) -> nth_error ss' i = nth_error ss i) /\
+    (forall i s, p <= N.of_nat i < q -> nth_error ss i = Some s -> free_slot s) /\
+    (length ss <= length ss')%nat /\ (k = FixedRoot -> length ss' = length ss).
+Proof. exact write_entry_refines_gen. Qed.
+Theorem C01_write_after_failed_write_refines : forall k free1 free2 fat32 ss n1 e1 r1 ss1 n2 e2 p q ss2 es ls,
+  dir_scan ss 0 [] fat32 = (es, ls, []) -> len_N ss < 134217728 ->
+  write_entry k free1 ss n1 e1 = (r1, ss1) -> (forall range, r1 <> Ok range) ->
+  len_N ss1 < 134217728 -> sfn_live e2 -> is_dot_name n2 = false ->
+  write_entry k free2 ss1 n2 e2 = (Ok (p, q), ss2) ->
+  exists iss es1 es2 ne,
+    dir_scan ss1 0 [] fat32 = (es, ls, iss) /\ (iss = [] \/ exists i, iss = [DOrphanLfn i]) /\
+    es = es1 ++ es2 /\ dir_scan ss2 0 [] fat32 = (es1 ++ ne :: es2, ls, iss) /\
+    e_lfn ne = utf16_encode n2 /\ e_lfn_ok ne = true /\ e_sfn ne = se_name e2 /\
+    e_attr ne = se_attrs e2 /\ e_size ne = se_size e2 /\
+    e_cluster ne = (if fat32 then se_first_cluster_hi e2 * 65536 else 0) + se_first_cluster_lo e2 /\
+    e_first_slot ne = p /\ e_sfn_slot ne + 1 = q /\
+    (forall i, (i < length ss1)%nat -> (N.of_nat i < p \/ q <= N.of_nat i) -> nth_error ss2 i = nth_error ss1 i) /\
+    (~ In (se_name e2) (map e_sfn es) ->
+     forall key, dir_map (es1 ++ ne :: es2) key = if list_eqb (se_name e2) key then Some ne else dir_map es key).
+Proof. exact write_after_failed_write_refines. Qed.
+Theorem C01_create_refines_map_orphans : forall upper oem fat32 k free ss n attrs cl now wd es ls iss range ss',
+  dir_scan ss 0 [] fat32 = (es, ls, iss) -> orphans_only iss -> is_dot_name n = false -> len_N ss < 134217728 ->
+  attrs < 64 -> N.land attrs 8 = 0 -> TimeProofs.datetime_valid now = true ->
+  create_entry upper oem fat32 k free ss n attrs cl now wd = (Ok (Some range), ss') ->
+  exists es' ne, dir_scan ss' 0 [] fat32 = (es', ls, iss) /\
+    e_lfn ne = utf16_encode n /\ e_lfn_ok ne = true /\ dir_map es (e_sfn ne) = None /\
+    forall key, dir_map es' key = if list_eqb (e_sfn ne) key then Some ne else dir_map es key.
+Proof. exact create_refines_map_orphans. Qed.
+(* a chain-backed directory of ONE 4-slot cluster: "hello world.txt" (slots 0-2) and one free slot.  A 14-character name
+   needs 3 slots; no free cluster: NotEnoughSpace, its first long-name slot (0x42) stays in slot 3 (orphan run, reported
+   at the end of the directory: slot 4).  Then a cluster is free and "b" is created: the directory grows by one cluster,
+   the run of "b" starts at slot 4 directly behind the orphan slot - "b" is decoded WITH its long name, the orphan run is
+   still the one issue, reported at slot 4 (now by the restarting slot).  A name without long-name slots ("." ) written
+   there would take the orphan slot for its own run: excluded by [is_dot_name n = false]. *)
+Example C01_write_after_failed_write_ex :
+  dir_scan ex_chain0 0 [] false = ([mk_entry (rev (firstn 2 ex_dir1)) (nth 2 ex_dir1 []) 2 false], [], []) /\
+  write_entry (Chained 4) 0 ex_chain0 (repeat_N 97 14) (ex_sfn ex_alias) = (Err ENotEnoughSpace, ex_chain1) /\
+  map (fun s => byte_at s 0) ex_chain1 = [66; 1; 72; 66] /\
+  snd (dir_scan ex_chain1 0 [] false) = [DOrphanLfn 4] /\ orphans_only (snd (dir_scan ex_chain1 0 [] false)) /\
+  sfn_live (ex_sfn ex_alias2) /\
+  fst (write_entry (Chained 4) 1 ex_chain1 [98] (ex_sfn ex_alias2)) = Ok (4, 6) /\
+  map (fun s => byte_at s 0) ex_chain2 = [66; 1; 72; 66; 65; 66; 0; 0] /\
+  map e_lfn (fst (fst (dir_scan ex_chain2 0 [] false))) = [ex_name1; [98]] /\
+  map e_lfn_ok (fst (fst (dir_scan ex_chain2 0 [] false))) = [true; true] /\
+  map e_first_slot (fst (fst (dir_scan ex_chain2 0 [] false))) = [0; 4] /\
+  snd (dir_scan ex_chain2 0 [] false) = [DOrphanLfn 4] /\
+  (let r := write_entry (Chained 4) 1 ex_chain1 [46] (ex_sfn ex_alias2) in
+   fst r = Ok (4, 5) /\ map e_lfn_ok (fst (fst (dir_scan (snd r) 0 [] false))) = [true; false]).
+Proof.
+  split; [vm_compute; reflexivity|]. split; [vm_compute; reflexivity|]. split; [vm_compute; reflexivity|].
+  split; [vm_compute; reflexivity|]. split; [vm_compute; constructor; [exists 4; reflexivity|constructor]|].
+  split. { constructor; [constructor; vm_compute; reflexivity| | |]; vm_compute; try reflexivity; discriminate. }
+  vm_compute. repeat split.
+Qed.
+
 (* ---- create_file / create_dir in one directory: existence check with the library's own matching (DirEntry::eq_name over
    what the iterator yields), alias from the C16 generator fed with the raw short names of all listed entries.  On
    success: exactly one new entry; its alias is legal and differs from the short name of every decoded entry; no listed
@@ -316,6 +394,9 @@ Print Assumptions C01_failed_write_keeps_entries.
 Print Assumptions C01_failed_write_unchanged_chain_refuted.
 Print Assumptions C01_rename_failed_source_kept.
 Print Assumptions C01_rename_across_failed_source_unchanged.
+Print Assumptions C01_write_entry_refines_orphans.
+Print Assumptions C01_write_after_failed_write_refines.
+Print Assumptions C01_create_refines_map_orphans.
 Print Assumptions C01_create_entry_refines.
 Print Assumptions C01_dir_refines_map.
 Print Assumptions C01_remove_entry_insane_refuted.
